@@ -293,6 +293,13 @@ func refusedMenu(m mapping.IndexMapping) []refusedCall {
 		call: func(sl *SkSlot, w *SketchWorld) error {
 			return sl.MergeWith(NewSkSlot(otherMapping(specOfSlot(w, sl)), sl.Store, sl.Exact))
 		}})
+	out = append(out, refusedCall{name: "MergeWith(non-empty sketch of the same base with the index offset shifted by 37)",
+		call: func(sl *SkSlot, w *SketchWorld) error {
+			g, o := mapParams(sl.Mapping())
+			other := NewSkSlot(MapSpec{Kind: specOfSlot(w, sl).Kind, Gamma: g, Offset: o + 37}.New(), sl.Store, sl.Exact)
+			other.Q().Add(3)
+			return sl.MergeWith(other)
+		}})
 	out = append(out, refusedCall{name: "MergeWith(non-empty sketch of a clearly different accuracy)",
 		call: func(sl *SkSlot, w *SketchWorld) error {
 			o := specOfSlot(w, sl)
@@ -398,7 +405,7 @@ func checkC13(w *SketchWorld, slot int) (fails []mc.Fail) {
 
 // constructor menu of C13 (a plain enumeration, run once per check)
 func constructorShard() mc.Shard {
-	return mc.Shard{Name: "C13/constructors", Weight: 1, Run: func(time.Time) *mc.Result {
+	run := func(time.Time) *mc.Result {
 		res := &mc.Result{Scenario: "C13/constructors", Property: "C13", Exhaustive: true}
 		fail := func(format string, a ...any) {
 			res.Violations = append(res.Violations, mc.Violation{Property: "C13", Clause: "C13.constructors", Scenario: "C13/constructors", Detail: fmt.Sprintf(format, a...), History: []string{fmt.Sprintf(format, a...)}})
@@ -500,7 +507,16 @@ func constructorShard() mc.Shard {
 		res.States, res.Transitions = res.Evaluations, res.Evaluations
 		res.Samples = []string{"mapping.NewLogarithmicMapping(1) must be refused", "mapping.NewCubicallyInterpolatedMappingWithGamma(1, 0.5) must be refused"}
 		return res
-	}, Replay: func(string, []string) ([]mc.Fail, error) { return nil, nil }}
+	}
+	return mc.Shard{Name: "C13/constructors", Weight: 1, Run: run, Replay: func(_ string, history []string) ([]mc.Fail, error) {
+		var fails []mc.Fail
+		for _, v := range run(time.Time{}).Violations {
+			if len(history) == 0 || (len(v.History) > 0 && v.History[0] == history[0]) {
+				fails = append(fails, mc.Fail{Clause: v.Clause, Detail: v.Detail})
+			}
+		}
+		return fails, nil
+	}}
 }
 
 // scaled content of a real sketch (expectation of C16, model-free)
